@@ -86,6 +86,9 @@ pub struct Fault {
     pub call: usize,
     pub at: u64,
     pub kind: FaultKind,
+    /// the entity itself has shrunk: from its second call on, `len()` reports this value (the
+    /// first call, which the response headers are built from, reports the original length)
+    pub shrunk_len: Option<u64>,
 }
 
 #[derive(Clone, Debug, PartialEq, Eq, Hash, Default)]
@@ -132,7 +135,7 @@ impl EntSpec {
             "slow_calls": self.slow_calls,
             "content_mode": self.content_mode,
             "fault": self.fault.as_ref().map(|f| json!({
-                "call": f.call, "at": u64_to_json(f.at),
+                "call": f.call, "at": u64_to_json(f.at), "shrunk_len": f.shrunk_len.map(u64_to_json),
                 "kind": match f.kind { FaultKind::EarlyEnd => "early_end", FaultKind::Err => "err",
                     FaultKind::ExtraByte => "extra_byte", FaultKind::ExtraChunk => "extra_chunk", FaultKind::Overrun => "overrun" }})),
         })
@@ -164,6 +167,7 @@ impl EntSpec {
                     "overrun" => FaultKind::Overrun,
                     _ => FaultKind::ExtraChunk,
                 },
+                shrunk_len: match &f["shrunk_len"] { Value::Null => None, x => Some(u64_from_json(x)) },
             }),
             _ => None,
         };
@@ -203,6 +207,7 @@ pub struct EntRec {
     pub add_headers: usize,
     pub stream_polls: u64,
     pub polls_after_finish: u64,
+    pub len_calls: u64,
 }
 
 /// What the harness entity can use as `Entity::Data`.
@@ -378,6 +383,13 @@ impl<D: HData> http_serve::Entity for MonEntity<D> {
     fn len(&self) -> u64 {
         if self.spec.slow_calls {
             wait_for_next_second();
+        }
+        if let Some(Fault { shrunk_len: Some(l), .. }) = &self.spec.fault {
+            let mut r = self.rec.lock().unwrap();
+            r.len_calls += 1;
+            if r.len_calls > 1 {
+                return *l;
+            }
         }
         self.spec.len
     }
